@@ -652,6 +652,21 @@ func newWalletBatch(b *Batch, fr *core.Rand, thorough bool) {
 			b.Fixed = append(b.Fixed, ep)
 		}
 	}
+	// Dilithium seeds that begin (or end) with a 3-byte descriptor the library
+	// knows: its own (signature type Dilithium = 1 in the high nibble, then
+	// 00 00) and XMSS ones; an import route that mistakes such a plain seed
+	// for descriptor || seed shows only on these (2^-24 for random seeds)
+	for _, d := range [][3]byte{{0x10, 0, 0}, {0x10, 0x10, 0}, {0x01, 0, 0}, {0x00, 0x02, 0}, {0x01, 0x05, 0}, {0x02, 0x0f, 0}, {0x00, 0x00, 0x00}} {
+		for _, tail := range []bool{false, true} {
+			sd, _ := hex.DecodeString(seedHex(fr))
+			if tail {
+				sd[45], sd[46], sd[47] = d[0], d[1], d[2]
+			} else {
+				sd[0], sd[1], sd[2] = d[0], d[1], d[2]
+			}
+			b.Fixed = append(b.Fixed, &Episode{Kind: "wallet-dil", Profile: "c09-descriptor-in-seed", Create: "seed", SeedHex: hex.EncodeToString(sd), NSigs: 1, Forms: dForms, DrainSeed: fr.Uint64()})
+		}
+	}
 	// seeds with extreme byte patterns
 	for i, pat := range [][2]byte{{0x00, 0x00}, {0xff, 0xff}, {0xff, 0x00}, {0x00, 0xff}, {0x0f, 0xf0}, {0x20, 0x20}, {0x11, 0x11}, {0x01, 0x01}, {0x07, 0x70}, {0x99, 0x12}, {0x08, 0x90}, {0xaa, 0xaa}} {
 		sd := make([]byte, 48)
